@@ -91,7 +91,8 @@ def candidates(case):
     for i, op in enumerate(ops):
         for key in ('required', 'arg'):
             arg = op.get(key)
-            if isinstance(arg, dict) and arg['t'] in ('list', 'tuple', 'set'):
+            if isinstance(arg, dict) and arg['t'] in ('list', 'tuple', 'set',
+                                                       'iter'):
                 for item in arg['items']:
                     new = copy.deepcopy(case)
                     new['ops'][i][key] = item
